@@ -94,6 +94,18 @@ EXT_SIGS = {
     ("Terminal", "dump"): "&self",
 }
 
+# type parameters of generic functions / impls, by owner (or free function name)
+FN_TYPARAMS = {"Reflow": {"I": ("vec", ("named", "Line")), "Item": ("named", "Line")}, "reflow": {"I": ("vec", ("named", "Line"))}}
+
+# iteration bounds for loops that are not structural (`while let`, `collect()` of a hand-written iterator).  The
+# generated loop takes this much fuel and yields `none` when it runs out, so for these functions `none` reads
+# "panics OR needs more iterations than the bound"; `some v` always means "the code returns v".  The bounds are
+# Lean expressions over the variables in scope at the loop.
+FUEL_HINTS = {
+    ("Reflow", "next", "whilelet"): "s.iter.length + 1",          # every iteration that continues consumes a line
+    ("reflow", "collect"): "Avt.Buffer.reflowFuel iter",           # the model's bound (Lemmas/Reflow.lean: sufficient)
+}
+
 # trait impls that are read: Iterator::next as an ordinary function, Index/IndexMut as PLACE functions (inlined)
 INDEX_TRAITS = {"Index<usize>": ("usize", False), "Index<Range<usize>>": ("range", False),
                 "Index<RangeFull>": ("full", False), "Index<VisualPosition>": ("pair", False),
@@ -248,8 +260,13 @@ class Scanner2(R.Scanner):
 # =============================================================================================
 # 3. parser extensions
 
-class Parser2(R.Parser):
-    def ty(self):
+_BaseParser = R.Parser
+
+
+class Parser2(_BaseParser):
+    typarams = {}
+
+    def ty0(self):
         c = self.cur
         if c.kind == "ident" and c.text in ("impl", "dyn"):
             # `impl Iterator<Item = T> + '_`, `dyn Iterator<Item = T> + 'a`: the list of items
@@ -270,7 +287,7 @@ class Parser2(R.Parser):
             el = self.ty()
             self.expect(">")
             return el
-        r = super().ty()
+        r = _BaseParser.ty(self)
         if r == ("named", "str"):
             return ("named", "String")
         if isinstance(r, tuple) and r[0] == "named" and r[1] in TYPE_ALIASES:
@@ -284,6 +301,23 @@ class Parser2(R.Parser):
             m = self.eat("mut")
             return N("un", c.line, op="&", e=self.unary(ns), mut=m)
         return super().unary(ns)
+
+    def primary(self, ns):
+        c = self.cur
+        if c.kind == "ident" and c.text == "assert" and self.peek().text == "!" and self.peek(2).text == "(":
+            self.i += 2
+            args = self.args()
+            if len(args) != 1:
+                unsup(f"line {c.line}: assert! with a message")
+            return N("assert", c.line, cond=args[0])
+        return super().primary(ns)
+
+    def ty(self):
+        r = self.ty0()
+        tp = Parser2.typarams
+        if isinstance(r, tuple) and r[0] == "named" and r[1] in tp:
+            return tp[r[1]]
+        return r
 
     def loop_stmt(self):
         c = self.cur
@@ -447,7 +481,12 @@ class Compiler2(R.Compiler):
             unsup("place function (returns a reference into `self`): inlined at every use")
         self.aux = []
         self.cur_inlined = set()
-        g = super().compile(item)
+        self.loop_count = 0
+        Parser2.typarams = FN_TYPARAMS.get(item.owner if item.owner is not None else item.name, {})
+        try:
+            g = super().compile(item)
+        finally:
+            Parser2.typarams = {}
         g.aux = self.aux
         self.aux = []
         self.tr.inlined_used |= self.cur_inlined
@@ -502,6 +541,11 @@ class Compiler2(R.Compiler):
         if isinstance(v.ty, tuple) and v.ty[0] == "range" and name in ("start", "end"):
             return super().field(v, "0" if name == "start" else "1", line)
         return super().field(v, name, line)
+
+    def resolve_variant(self, ctx, path, line, expected=None):
+        if len(path) == 1 and path[0] in ("Less", "Equal", "Greater") and "Ordering" in ctx.uses:
+            return "Ordering", path[0], []
+        return super().resolve_variant(ctx, path, line, expected)
 
     # ---------------------------------------------------------------- places
     def place_of(self, e, ctx, pre, mutable=False):
@@ -855,7 +899,7 @@ class Compiler2(R.Compiler):
         return Val(text, g.ret, kind)
 
     VEC_MUT_IDIOMS = ("push", "clear", "truncate", "extend", "split_off", "drain", "insert", "rotate_left",
-                      "rotate_right", "fill", "push_str", "reserve", "take")
+                      "rotate_right", "fill", "push_str", "reserve", "take", "next")
 
     def e_mcall(self, e, ctx, pre, expect):
         name, line = e.name, e.line
@@ -892,7 +936,10 @@ class Compiler2(R.Compiler):
     def list_idiom(self, pl, e, ctx, pre):
         name, line = e.name, e.line
         if name == "reserve" and len(e.args) == 1:
-            v = self.cexpr(e.args[0], ctx, [])          # capacity is not modelled
+            pre2 = []
+            v = self.cexpr(e.args[0], ctx, pre2)        # capacity is not modelled
+            if pre2:
+                unsup(f"line {line}: `reserve` with an argument that can panic")
             return Val("()", "unit", extra="noop")
         if name == "take" and not e.args:
             # Option::take
@@ -901,6 +948,15 @@ class Compiler2(R.Compiler):
             pre.append(("let", x, cur.lean))
             self.write(pl, ctx, pre, "none", line)
             return Val(x, pl.ty)
+        if name == "next" and not e.args and isinstance(pl.ty, tuple) and pl.ty[0] == "vec":
+            # `Iterator::next` on an iterator that is modelled as the list of its remaining items
+            L = self.read(pl, ctx, pre, line)
+            x = ctx.fresh()
+            pre.append(("let", x, f"List.head? {L.a}"))
+            self.write(pl, ctx, pre, f"List.tail {L.a}", line)
+            return Val(x, ("opt", pl.ty[1]))
+        if name == "next":
+            unsup(f"line {line}: `.next()` on a place of type {pl.ty!r}")
         if pl.kind == "window":
             base = pl.base
             L = self.read(base, ctx, pre, line)
@@ -1021,6 +1077,9 @@ class Compiler2(R.Compiler):
         r = self.cexpr(e.recv, ctx, pre)
         ty = r.ty
         tk = ty[0] if isinstance(ty, tuple) else ty
+        if name == "collect" and not e.args and tk == "named" and (ty[1], "next") in self.tr.items \
+                and self.tr.items[(ty[1], "next")].trait == "Iterator":
+            return self.collect_iterator(r, ctx, pre, line)
         if tk == "repeat" and name == "take" and len(e.args) == 1:
             n = self.cexpr(e.args[0], ctx, pre, "usize")
             return Val(f"List.replicate {n.a} {r.a}", ("iter", ty[1]))
@@ -1081,6 +1140,44 @@ class Compiler2(R.Compiler):
             del ctx.env[tmp]
             del ctx.vals[tmp]
 
+    def collect_iterator(self, r, ctx, pre, line):
+        """`it.collect()` where `it` is a struct with a translated `Iterator::next`: `next` until `None`, with fuel"""
+        sname = r.ty[1]
+        g = self.tr.get(sname, "next")
+        if g.self_mode != "mut" or not (isinstance(g.ret, tuple) and g.ret[0] == "opt"):
+            unsup(f"line {line}: {sname}::next has an unexpected signature")
+        key = (ctx.gen.name if ctx.gen.owner is None else f"{ctx.gen.owner}::{ctx.gen.name}", "collect")
+        if key not in FUEL_HINTS:
+            unsup(f"line {line}: `collect()` of the hand-written iterator {sname}: no iteration bound in FUEL_HINTS for {key}")
+        ns, _ = NAMESPACES[sname]
+        aux_name = f"{ns}.{sname}.collect"
+        T = R.lty(g.ret[1])
+        S = R.lty(("named", sname))
+        L = [f"/-- `{sname} {{ .. }}.collect()`: `next` until it returns `None` (fuel: see FUEL_HINTS in rs2lean_buf.py) -/",
+             f"def {sname}.collect : Nat → {latom(S)} → Option (List {latom(T)})",
+             "  | 0, _ => none",
+             "  | fuel + 1, s =>"]
+        if g.opt:
+            L += [f"    match {g.lean_name} s with",
+                  "    | none => none",
+                  "    | some (_, none) => some []",
+                  "    | some (s, some x) =>",
+                  f"      match {sname}.collect fuel s with",
+                  "      | none => none",
+                  "      | some xs => some (x :: xs)"]
+        else:
+            L += [f"    match {g.lean_name} s with",
+                  "    | (_, none) => some []",
+                  "    | (s, some x) =>",
+                  f"      match {sname}.collect fuel s with",
+                  "      | none => none",
+                  "      | some xs => some (x :: xs)"]
+        if not any(a[1].startswith(f"def {sname}.collect") for a in self.aux):
+            self.aux.append(L)
+        x = ctx.fresh()
+        pre.append(("bind", x, f"{aux_name} ({FUEL_HINTS[key]}) {r.a}"))
+        return Val(x, ("vec", g.ret[1]))
+
     def filter_map(self, src, cl, ctx, pre, line):
         """`iter.filter_map(closure)`; the closure may mutate `self` / locals (lazy iterators that are returned or
         collected are modelled as fully consumed, in order)"""
@@ -1138,6 +1235,28 @@ class Compiler2(R.Compiler):
         pre.append(("bind" if opt else "let", pat, RawIR(lines, opt)))
         return Val(outv, ("iter", holder["ty"]))
 
+    def expr_ir(self, e, ctx, k):
+        # `opt.map(|mut x| { stmts; x })`: the closure body is a block that may update its parameter / panic
+        if e.kind == "mcall" and e.name == "map" and len(e.args) == 1 and e.args[0].kind == "closure" \
+                and e.args[0].body.kind == "blockexpr" and len(e.args[0].params) == 1:
+            cl = e.args[0]
+            pre = []
+            o = self.cexpr(e.recv, ctx, pre)
+            if isinstance(o.ty, tuple) and o.ty[0] == "opt":
+                q = cl.params[0]
+                if q.kind == "pbind":
+                    rust = q.name
+                elif q.kind == "ppath" and q.args is None and len(q.path) == 1:
+                    rust = q.path[0]
+                else:
+                    unsup(f"line {e.line}: unsupported closure parameter")
+                c2 = ctx.child()
+                x = c2.declare(rust, o.ty[1])
+                body = self.block_ir(cl.body.block, c2,
+                                     lambda v, c: k(Val(f"some {latom(self.value_text(v))}", ("opt", v.ty)), c))
+                return wrap(pre, MatchIR(o.lean, [("none", k(Val("none", o.ty), ctx)), (f"some {x}", body)]))
+        return super().expr_ir(e, ctx, k)
+
     # ---------------------------------------------------------------- statements
     def stmt_ir(self, s, ctx, rest):
         if s.kind == "return":
@@ -1151,6 +1270,10 @@ class Compiler2(R.Compiler):
             return self.s_while(s, ctx, rest)
         if s.kind == "whilelet":
             return self.s_whilelet(s, ctx, rest)
+        if s.kind == "expr" and s.e.kind == "assert":
+            pre = []
+            v = self.cexpr(s.e.cond, ctx, pre)
+            return wrap(pre, IfIR(self.cond(v), rest(), YieldOpt("none")))      # a failed `assert!` panics
         if s.kind == "expr" and s.e.kind == "mcall" and s.e.name == "for_each":
             return self.s_for_each(s.e, ctx, rest)
         if s.kind == "expr" and s.e.kind in ("mcall", "call"):
@@ -1334,11 +1457,358 @@ class Compiler2(R.Compiler):
                     return wrap([("let", lean, f"Avt.GenL.popWhile (fun {x} => {self.as_bool(v)}) {lean}")], rest())
         return self.s_scan_while(s, ctx, rest)
 
+    # ---- idiom "index scan":  `while c1 && .. && ck { body; i += 1; }`  where the loop reads the vector V only as V[i]
     def s_scan_while(self, s, ctx, rest):
-        unsup(f"line {s.line}: `while` loop outside the recognised idioms")
+        line = s.line
+        if getattr(ctx, "in_loop", False):
+            unsup(f"line {line}: nested loops")
+        body = s.body
+        if body.tail is not None or not body.stmts or contains_return(body) or ast_has_kind(body, ("while", "whilelet", "for")):
+            unsup(f"line {line}: `while` loop outside the recognised idioms (body shape)")
+        last = body.stmts[-1]
+        if not (last.kind == "assign" and last.op == "+=" and last.lhs.kind == "path" and len(last.lhs.path) == 1
+                and last.rhs.kind == "int" and last.rhs.value == 1):
+            unsup(f"line {line}: `while` loop outside the recognised idioms (the body does not end with `i += 1`)")
+        iv = last.lhs.path[0]
+        if iv not in ctx.env or ctx.env[iv][1] != "usize":
+            unsup(f"line {line}: scan loop: `{iv}` is not a usize local")
+        # conjuncts of the condition
+        conjs = []
 
+        def flat(c):
+            while c.kind == "paren":
+                c = c.e
+            if c.kind == "bin" and c.op == "&&":
+                flat(c.a)
+                flat(c.b)
+            else:
+                conjs.append(c)
+        flat(s.cond)
+        # the scanned vector: the unique V with an occurrence `V[i]`
+        found = []
+
+        def scan(n):
+            if isinstance(n, N):
+                if n.kind == "index" and n.ix.kind == "path" and n.ix.path == [iv]:
+                    if not any(ast_eq(n.e, f) for f in found):
+                        found.append(n.e)
+                for k2, v2 in n.__dict__.items():
+                    if k2 not in ("kind", "line"):
+                        scan(v2)
+            elif isinstance(n, (list, tuple)):
+                for x in n:
+                    scan(x)
+        scan(conjs)
+        scan(body.stmts)
+        if len(found) != 1:
+            unsup(f"line {line}: scan loop: expected exactly one vector indexed by `{iv}`")
+        V = found[0]
+        prev = []
+        vpl = self.place_of(V, ctx, prev)
+        if vpl is None or prev or vpl.kind not in ("self", "local") or not (isinstance(vpl.ty, tuple) and vpl.ty[0] == "vec"):
+            unsup(f"line {line}: scan loop: the indexed expression is not a vector place")
+        ety = vpl.ty[1]
+        hole = N("path", line, path=["__elem"])
+        target = N("index", line, e=V, ix=N("path", line, path=[iv]))
+        conjs2, _ = ast_subst(conjs, target, hole)
+        stmts2, _ = ast_subst(body.stmts, target, hole)
+        if ast_contains(conjs2, V) or ast_contains(stmts2, V):
+            unsup(f"line {line}: scan loop: the vector is used other than as `v[{iv}]`")
+        # the index may only change through the final `i += 1`
+        assigned = []
+        collect_assigned(stmts2[:-1], assigned)
+        if iv in assigned:
+            unsup(f"line {line}: scan loop: `{iv}` is assigned inside the body")
+        state = [v for v in assigned if v in ctx.env]
+        for v in assigned:
+            if v not in ctx.env and v not in declared_in(stmts2):
+                unsup(f"line {line}: scan loop: assignment to `{v}`")
+        state.append(iv)
+        if vpl.kind == "local" and vpl.name in state:
+            unsup(f"line {line}: scan loop: the vector is modified in the loop")
+        used = []
+        collect_used(conjs2, used)
+        collect_used(stmts2, used)
+        uses_self = "self" in used
+        captured = [v for v in used if v in ctx.env and v not in state and v != "__elem"]
+        # progress: on every iteration V[i] is evaluated (so that running off the end of the vector is a panic,
+        # never a silent continuation)
+        jpos = next((k for k, c in enumerate(conjs2) if ast_contains(c, hole)), None)
+        if jpos is not None:
+            if not definitely_evaluates(conjs2[jpos], hole):
+                unsup(f"line {line}: scan loop: `v[{iv}]` is not evaluated unconditionally in the condition")
+        else:
+            if not any(stmt_definitely_evaluates(st, hole) for st in stmts2):
+                unsup(f"line {line}: scan loop: `v[{iv}]` is not evaluated on every iteration")
+        self.loop_count += 1
+        short = ctx.gen.lean_name[len(NAMESPACES[ctx.gen.owner][0]) + 1:]
+        aux_short = f"{short}.loop{self.loop_count}"
+        aux_full = f"{NAMESPACES[ctx.gen.owner][0]}.{aux_short}"
+        st_lean = [ctx.env[v][0] for v in state]
+        st_tys = [ctx.env[v][1] for v in state]
+        cap_lean = [ctx.env[v][0] for v in captured]
+        if uses_self:
+            cap_lean = [ctx.selfvar] + cap_lean
+        st_pat = st_lean[0] if len(st_lean) == 1 else "(" + ", ".join(st_lean) + ")"
+        hd, tl = f"hd{self.loop_count}", f"tl{self.loop_count}"
+        exit_ir = lambda: Yield(text=st_pat)
+        call_text = aux_full + "".join(" " + c for c in cap_lean) + f" {tl}" + "".join(" " + c for c in st_lean)
+
+        def cond_chain(child, cs, k_true):
+            if not cs:
+                return k_true()
+            pre = []
+            v = self.cexpr(cs[0], child, pre)
+            return wrap(pre, IfIR(self.cond(v), cond_chain(child, cs[1:], k_true), exit_ir()))
+
+        saved = ctx.counter[0]
+        # x :: xs
+        eff = Effects()
+        child = ctx.child(eff)
+        child.in_loop = True
+        child.declare("__elem", ety, hd)
+        cons_ir = cond_chain(child, conjs2, lambda: self.seq(stmts2, 0, child, lambda c: YieldOpt(call_text)))
+        if eff.mut_self:
+            unsup(f"line {line}: scan loop: `self` is modified in the loop")
+        # []
+        eff2 = Effects()
+        child2 = ctx.child(eff2)
+        child2.in_loop = True
+        nil_conjs = conjs2 if jpos is None else conjs2[:jpos]
+        nil_ir = cond_chain(child2, nil_conjs, lambda: YieldOpt("none"))
+        ctx.counter[0] = saved
+        cons_lines = self.R.render(simplify(cons_ir), True)
+        nil_lines = self.R.render(simplify(nil_ir), True)
+        res_ty = " × ".join(latom(R.lty(t)) for t in st_tys)
+        params = "".join(f" ({ctx.env[v][0]} : {R.lty(ctx.env[v][1])})" for v in captured)
+        if uses_self:
+            params = f" ({ctx.selfvar} : {R.lty(('named', ctx.gen.owner))})" + params
+        sig = " → ".join([f"List {latom(R.lty(ety))}"] + [latom(R.lty(t)) for t in st_tys])
+        A = [f"/-- the `while` loop at line {line} of `{ctx.gen.item.qname}`: it reads `{render_ast(V)}` only as "
+             f"`{render_ast(V)}[{iv}]` and ends with `{iv} += 1`, so it is a scan of `{render_ast(V)}[{iv}..]`; "
+             f"running off the end is the index panic -/",
+             f"def {aux_short}{params} : {sig} → Option {latom(res_ty)}",
+             "  | []" + "".join(", " + x for x in st_lean) + " =>"]
+        A += ["    " + x for x in nil_lines]
+        A.append(f"  | {hd} :: {tl}" + "".join(", " + x for x in st_lean) + " =>")
+        A += ["    " + x for x in cons_lines]
+        self.aux.append(A)
+        for v in state:
+            ctx.assign_local(v)
+        Vv = self.read(vpl, ctx, [], line)
+        start = ctx.env[iv][0]
+        call = aux_full + "".join(" " + c for c in cap_lean) + f" (List.drop {start} {Vv.a})" + "".join(" " + c for c in st_lean)
+        return BindO(st_pat, call, rest())
+
+    # ---- `while let PAT = SCRUT { BODY }` with `return`s: a loop on fuel (FUEL_HINTS)
     def s_whilelet(self, s, ctx, rest):
-        unsup(f"line {s.line}: `while let` loop outside the recognised idioms")
+        line = s.line
+        key = (ctx.gen.owner, ctx.gen.name, "whilelet")
+        if key not in FUEL_HINTS:
+            unsup(f"line {line}: `while let` loop: no iteration bound in FUEL_HINTS for {key}")
+        if getattr(ctx, "in_loop", False) or not ctx.top:
+            unsup(f"line {line}: `while let` loop that is not at function level")
+        self.loop_count += 1
+        ns = NAMESPACES[ctx.gen.owner][0]
+        short = ctx.gen.lean_name[len(ns) + 1:]
+        aux_short = f"{short}.loop{self.loop_count}"
+        aux_full = f"{ns}.{aux_short}"
+        ret = ctx.gen.ret
+        # scrutinee `a.or_else(|| b)`  ==>  `let mut w = a; if w.is_none() { w = b; }` and scrutinee `w`
+        pre_stmts = []
+        scrut = s.scrut
+        if scrut.kind == "mcall" and scrut.name == "or_else" and len(scrut.args) == 1 \
+                and scrut.args[0].kind == "closure" and not scrut.args[0].params:
+            w = N("path", line, path=["__w"])
+            pre_stmts.append(N("let", line, pat=N("pbind", line, name="__w"), ty=None, init=scrut.recv))
+            asg = N("assign", line, lhs=w, op="=", rhs=scrut.args[0].body)
+            cond = N("mcall", line, recv=w, name="is_none", args=[])
+            pre_stmts.append(N("expr", line, e=N("if", line, cond=cond,
+                                                 then=N("block", line, stmts=[asg], tail=None), els=None)))
+            scrut = w
+
+        def compile_body(names):
+            """-> IR of one iteration, given the Lean names of the loop state"""
+            st = names[0] if len(names) == 1 else "(" + ", ".join(names) + ")"
+            eff = Effects()
+            child = ctx.child(eff)
+            child.top = False
+            child.fn_finish = lambda v, c: Yield(text=f"({st}, some {latom(self.value_text(v))})")
+            fall = lambda v, c: YieldOpt(f"{aux_full} fuel" + "".join(" " + n for n in names))
+
+            def after(c):
+                pre = []
+                v = self.cexpr(scrut, c, pre)
+                pt, binds = self.pattern(s.pat, v.ty, c, line)
+                c2 = c.child()
+                for rust, lean, ty in binds:
+                    c2.declare(rust, ty, lean)
+                body_ir = self.block_ir(s.body, c2, fall)
+                return wrap(pre, MatchIR(self.value_text(v), [(pt, body_ir), ("_", Yield(text=f"({st}, none)"))]))
+
+            ir = self.seq(pre_stmts, 0, child, after)
+            return ir, eff
+
+        saved = ctx.counter[0]
+        _, eff = compile_body(["_"])
+        names = []
+        if eff.mut_self:
+            names.append(ctx.selfvar)
+        for r in eff.assigned:
+            if r in ctx.env:
+                names.append(ctx.env[r][0])
+        if not names:
+            unsup(f"line {line}: `while let` loop without effect")
+        ctx.counter[0] = saved
+        ir, eff = compile_body(names)
+        ctx.counter[0] = saved
+        if eff.mut_self:
+            ctx.mutate_self()
+        tys = []
+        if eff.mut_self:
+            tys.append(("named", ctx.gen.owner))
+        for r in eff.assigned:
+            if r in ctx.env:
+                tys.append(ctx.env[r][1])
+                ctx.assign_local(r)
+        body_lines = self.R.render(simplify(ir), True)
+        st_ty = " × ".join(latom(R.lty(t)) for t in tys)
+        sig = " → ".join(["Nat"] + [latom(R.lty(t)) for t in tys])
+        A = [f"/-- the `while let` loop at line {line} of `{ctx.gen.item.qname}`, on fuel (`none` also when the fuel runs "
+             f"out; bound at the call: `{FUEL_HINTS[key]}`).  Result: the loop state and `some v` if the body executed "
+             f"`return v` -/",
+             f"def {aux_short} : {sig} → Option ({latom(st_ty)} × Option {latom(R.lty(ret))})",
+             "  | 0" + "".join(", _" for _ in names) + " => none",
+             "  | fuel + 1" + "".join(", " + n for n in names) + " =>"]
+        A += ["    " + x for x in body_lines]
+        self.aux.append(A)
+        st = names[0] if len(names) == 1 else "(" + ", ".join(names) + ")"
+        rv = ctx.fresh()
+        call = f"{aux_full} ({FUEL_HINTS[key]})" + "".join(" " + n for n in names)
+        returned = ctx.fn_finish(Val(rv, ret), ctx)
+        return BindO("r" + rv, call, MatchIR("r" + rv, [(f"({st}, some {rv})", returned), (f"({st}, none)", rest())]))
+
+
+def ast_has_kind(node, kinds):
+    if isinstance(node, N):
+        if node.kind in kinds:
+            return True
+        return any(ast_has_kind(v, kinds) for k, v in node.__dict__.items() if k not in ("kind", "line"))
+    if isinstance(node, (list, tuple)):
+        return any(ast_has_kind(x, kinds) for x in node)
+    return False
+
+
+def ast_contains(node, target):
+    if isinstance(node, N):
+        if ast_eq(node, target):
+            return True
+        return any(ast_contains(v, target) for k, v in node.__dict__.items() if k not in ("kind", "line"))
+    if isinstance(node, (list, tuple)):
+        return any(ast_contains(x, target) for x in node)
+    return False
+
+
+def collect_assigned(node, out):
+    """names of locals assigned (`x = e`, `x op= e`) below node, in order of first occurrence"""
+    if isinstance(node, N):
+        if node.kind == "assign":
+            l = node.lhs
+            while l.kind in ("field", "index", "paren"):
+                l = l.e
+            if l.kind == "path" and len(l.path) == 1 and l.path[0] not in out:
+                out.append(l.path[0])
+        for k, v in node.__dict__.items():
+            if k not in ("kind", "line"):
+                collect_assigned(v, out)
+    elif isinstance(node, (list, tuple)):
+        for x in node:
+            collect_assigned(x, out)
+
+
+def declared_in(node):
+    out = []
+
+    def go(n):
+        if isinstance(n, N):
+            if n.kind == "let":
+                def pat(p):
+                    if p.kind == "pbind":
+                        out.append(p.name)
+                    elif p.kind == "ppath" and p.args is None and len(p.path) == 1:
+                        out.append(p.path[0])
+                    elif p.kind == "ptuple":
+                        for q in p.parts:
+                            pat(q)
+                pat(n.pat)
+            for k, v in n.__dict__.items():
+                if k not in ("kind", "line"):
+                    go(v)
+        elif isinstance(n, (list, tuple)):
+            for x in n:
+                go(x)
+    go(node)
+    return out
+
+
+def collect_used(node, out):
+    """single-identifier paths (and `self`) read or written below node, in order of first occurrence"""
+    if isinstance(node, N):
+        if node.kind == "path" and len(node.path) == 1 and node.path[0] not in out:
+            out.append(node.path[0])
+        for k, v in node.__dict__.items():
+            if k not in ("kind", "line"):
+                collect_used(v, out)
+    elif isinstance(node, (list, tuple)):
+        for x in node:
+            collect_used(x, out)
+
+
+def definitely_evaluates(e, hole):
+    """is `hole` evaluated whenever e is evaluated? (only the left operand of `&&` / `||` counts)"""
+    if not isinstance(e, N):
+        return False
+    if ast_eq(e, hole):
+        return True
+    k = e.kind
+    if k in ("paren", "un", "cast", "field"):
+        return definitely_evaluates(e.e, hole)
+    if k == "mcall":
+        return definitely_evaluates(e.recv, hole) or any(definitely_evaluates(a, hole) for a in e.args)
+    if k == "call":
+        return any(definitely_evaluates(a, hole) for a in e.args)
+    if k == "bin":
+        if e.op in ("&&", "||"):
+            return definitely_evaluates(e.a, hole)
+        return definitely_evaluates(e.a, hole) or definitely_evaluates(e.b, hole)
+    if k == "index":
+        return definitely_evaluates(e.e, hole) or definitely_evaluates(e.ix, hole)
+    if k == "if":
+        return definitely_evaluates(e.cond, hole)
+    if k in ("tuple", "array"):
+        return any(definitely_evaluates(a, hole) for a in e.parts)
+    return False
+
+
+def stmt_definitely_evaluates(st, hole):
+    if st.kind == "let":
+        return definitely_evaluates(st.init, hole)
+    if st.kind == "assign":
+        return definitely_evaluates(st.rhs, hole) or definitely_evaluates(st.lhs, hole)
+    if st.kind == "expr":
+        return definitely_evaluates(st.e, hole)
+    return False
+
+
+def render_ast(e):
+    """source-like text of simple expressions (for comments only)"""
+    if e.kind == "path":
+        return "::".join(e.path)
+    if e.kind == "field":
+        return f"{render_ast(e.e)}.{e.name}"
+    if e.kind in ("paren", "un"):
+        return render_ast(e.e)
+    return "<expr>"
 
 
 # =============================================================================================
